@@ -1,4 +1,5 @@
 import SpdxVerif.Props.C10
+import SpdxVerif.Props.Consts
 #print axioms Spdx.C10.verdict_of_eval_eq
 #print axioms Spdx.C10.verdict_and
 #print axioms Spdx.C10.verdict_or
@@ -14,3 +15,5 @@ import SpdxVerif.Props.C10
 #print axioms Spdx.C10.distrib_or_and
 #print axioms Spdx.C10.congr_and
 #print axioms Spdx.C10.congr_or
+#print axioms Spdx.ConstsPin.expandAnd_ints
+#print axioms Spdx.ConstsPin.skipWhitespace_literals
